@@ -108,8 +108,12 @@ char * filename_with_extension(const char * original, const char * new_extension
 	// Determine output filename without file extension
 	name_no_ext = my_strdup(original);
 
-	if (strrchr(name_no_ext, '.') != NULL) {
-		long count = strrchr(name_no_ext, '.') - name_no_ext;
+	// The extension belongs to the file name -- a '.' in a folder name is not one
+	char * last_dot = strrchr(name_no_ext, '.');
+	char * last_slash = strrchr(name_no_ext, '/');
+
+	if ((last_dot != NULL) && ((last_slash == NULL) || (last_dot > last_slash + 1))) {
+		long count = last_dot - name_no_ext;
 
 		if (count != 0) {
 			name_no_ext[count] = '\0';
